@@ -88,6 +88,11 @@ func nearMisses(run *vk.Run, w *world.World, pt []byte) {
 		}
 	}
 	variants["trailing-space"] = base + " "
+	variants["trailing-lf"] = base + "\n"
+	variants["trailing-cr"] = base + "\r"
+	variants["trailing-crlf"] = base + "\r\n"
+	variants["trailing-tab"] = base + "\t"
+	variants["leading-lf"] = "\n" + base
 	variants["leading-space"] = " " + base
 	variants["nfd"] = strings.Replace(base, "é", "é", 1)
 	variants["lower"] = strings.ToLower(base)
@@ -104,6 +109,23 @@ func nearMisses(run *vk.Run, w *world.World, pt []byte) {
 		wrong, _ := age.NewScryptIdentity(v)
 		mustNotOpen(run, file, wrong, "passphrase-"+strings.SplitN(name, "@", 2)[0], fmt.Sprintf("passphrase variant %q (%s) against a file for %q", v, name, base))
 		run.Distinct("pw:" + name)
+	}
+	// the other direction: the file's passphrase carries the extra character, the identity's does not
+	for _, name := range []string{"trailing-lf", "trailing-cr", "trailing-space", "trailing-tab"} {
+		r2, _ := age.NewScryptRecipient(variants[name])
+		r2.SetWorkFactor(3)
+		f2, err := encryptTo(r2, msg)
+		if err != nil {
+			vk.Infra("%v", err)
+		}
+		mustNotOpen(run, f2, right, "passphrase-rev-"+name, fmt.Sprintf("file for passphrase %q opened with %q", variants[name], base))
+		for _, other := range []string{"trailing-lf", "trailing-cr"} {
+			if other != name {
+				o, _ := age.NewScryptIdentity(variants[other])
+				mustNotOpen(run, f2, o, "passphrase-rev-"+name, fmt.Sprintf("file for passphrase %q opened with %q", variants[name], variants[other]))
+			}
+		}
+		run.Distinct("pw-rev:" + name)
 	}
 	// histories: a successful decryption must not help a later wrong identity (same process, same file)
 	for round := 0; round < 2; round++ {
